@@ -46,6 +46,8 @@ def gen(profile, **kw):
 def run_case(case):
     if case.get("op") == "ctor":
         return ctor_case(case)
+    if case.get("kind") == "scale":
+        return archlib.run_scale(case, PROPS)
     return archlib.run_case(case, PROPS)
 
 
@@ -109,6 +111,7 @@ def run(ctx):
                           ("cma-tmin-edge", "tminedge", ctx.n(80, 6000)),
                           ("cma-mixed-magnitudes", "xmag", ctx.n(80, 6000))]:
         ctx.explore(name, gen(prof), run_case, n, nontrivial=archlib.nontrivial_c01, time_budget=budget)
+    ctx.explore("scale", archlib.gen_scale, run_case, ctx.n(3, 120), time_budget=10 if ctx.quick else 100)
 
 
 def replay(ctx, case):
